@@ -73,6 +73,30 @@ def judge(rec, obs, pinned_only=True):
     return None
 
 
+def scn_key(scn):
+    return json.dumps({k: v for k, v in scn.items() if k != "faultKind"}, sort_keys=True)
+
+
+def stream_key(out, result):
+    return json.dumps([[list(ev_key(e)) for e in out], result])
+
+
+def judge_binary(scn, obs, allowed):
+    """Binary detection makes the stream depend on the read history: the observed stream must be one
+    the Searcher model allows for this scenario under some history; under Quit no delivered line may
+    contain a NUL."""
+    if obs["result"] == "panic":
+        return "panic: " + obs.get("err", "")[:200]
+    if scn["bin"] == "quit":
+        inp = scn["inp"]
+        for e in obs["out"]:
+            if e["k"] in ("match", "ctx") and 0 in inp[e["off"]:e["off"] + e["len"]]:
+                return "a delivered line contains a NUL byte although binary detection is Quit"
+    if stream_key(obs["out"], obs["result"]) not in allowed:
+        return "observed stream is not allowed by the Searcher model under any read history"
+    return None
+
+
 def mechanism(rec):
     """Signature of a failing scenario (for known_findings matching)."""
     scn = rec["scn"]
@@ -113,6 +137,11 @@ def explore(chk, cfgname, workers=12, timeout=900, variants=("as_is",), simulate
         recs = [r for r in recs if want(r)]
     vlib.log("[%s] %s: %d states, %d scenarios emitted in %.1fs" % (chk.pid, cfgname, res.distinct, len(recs), res.wall))
     design_bad = [r for r in recs if not r["ok"]]
+    # envelope for history-dependent scenarios (binary detection): every stream the model allows
+    allowed = {}
+    for r in recs:
+        if r["scn"]["bin"] != "none":
+            allowed.setdefault(scn_key(r["scn"]), set()).add(stream_key(r["out"], r["result"]))
     # build the replay list
     jobs = []
     for i, r in enumerate(recs):
@@ -151,13 +180,16 @@ def explore(chk, cfgname, workers=12, timeout=900, variants=("as_is",), simulate
     for j, o in zip(jobs, obs):
         r = recs[j["_i"]]
         why = judge(dict(r, scn=j["scn"]), o)
+        if why is None and r["scn"]["bin"] != "none":
+            why = judge_binary(r["scn"], o, allowed.get(scn_key(r["scn"]), set()))
         if why is None and extra_judge:
             why = extra_judge(r, o, j)
         if why is not None:
             sig = mechanism(r)
             sig["variant"] = j["_v"]
             chk.violation(sig, {"why": why, "scenario": {k: v for k, v in j.items() if not k.startswith("_")},
-                                "reference": r["ref"], "observed": o, "driver": "replay_search"})
+                                "reference": r["ref"], "observed": o, "driver": "replay_search",
+                                "allowed": sorted(allowed.get(scn_key(r["scn"]), []))})
             continue
         chk.validated += 1
         if j["_v"] == "as_is" and r["scn"]["bin"] == "none":
@@ -191,6 +223,8 @@ def replay_file(path):
                       "why_then": rec["record"].get("why")}, indent=1))
     fake = {"scn": scen["scn"], "ref": rec["record"]["reference"], "reads": scen.get("reads", [])}
     why = judge(fake, o)
+    if why is None and scen["scn"]["bin"] != "none":
+        why = judge_binary(scen["scn"], o, set(rec["record"].get("allowed", [])))
     if why:
         print("VIOLATION property=%s replay=%s" % (rec["property"], path))
         print("  " + why)
